@@ -42,6 +42,8 @@ def where(c):
         return "dataset-names"
     if same_ds:
         return "components-of-one-dataset"
+    if exprk.creates_case_variant(c):
+        return "clause-creates-case-variant-of-existing-component"
     return "components-across-datasets-or-created-by-clause"
 
 
@@ -60,7 +62,7 @@ def run(ctx):
     tries = 0
     while len(cases) < n and tries < n * 30:
         tries += 1
-        base = exprk.make_case(ctx.rng, ctx.rng.choice([1, 2, 3]), kinds=["clause", "clause", "elem", "binary"])
+        base = exprk.make_case(ctx.rng, ctx.rng.choice([1, 2, 3]), kinds=["clause", "clause", "elem", "binary", "setop"])
         if base is None:
             continue
         m = ctx.rng.choice(MAPPINGS)
